@@ -1129,7 +1129,7 @@ class TwoDSpectrumBase(DataSaveable):
                         odata = None
                         
                     if odata is None:    
-                        self.d__data = data
+                        self.d__data = numpy.array(data)
                     else:
                         self.d__data = odata + data
                 else:
@@ -1151,7 +1151,7 @@ class TwoDSpectrumBase(DataSaveable):
                     odata = None
                     
                 if odata is None:
-                    self.d__data = data
+                    self.d__data = numpy.array(data)
                 else:
                     self.d__data = odata + data
             
@@ -1174,7 +1174,7 @@ class TwoDSpectrumBase(DataSaveable):
                     odata = None
                     
                 if odata is None:
-                    self.d__data = data
+                    self.d__data = numpy.array(data)
                 else:
                     self.d__data = odata + data
             
@@ -1196,7 +1196,7 @@ class TwoDSpectrumBase(DataSaveable):
                     odata = None
                     
                 if odata is None:
-                    self.d__data = data
+                    self.d__data = numpy.array(data)
                 else:
                     self.d__data = odata + data
             
@@ -1218,7 +1218,7 @@ class TwoDSpectrumBase(DataSaveable):
                     odata = None
                     
                 if odata is None:
-                    self.d__data = data
+                    self.d__data = numpy.array(data)
                 else:
                     self.d__data = odata + data
                 
@@ -1620,7 +1620,7 @@ class TwoDResponse(TwoDSpectrumBase, Saveable):
         
         twod.set_data_type(dtype)
         self.set_data_flag(dtype)
-        twod.set_data(self.d__data[:,:])
+        twod.set_data(numpy.array(self.d__data[:,:]))
 
         return twod
 
